@@ -41,6 +41,8 @@ type trSys struct {
 	violated   bool
 	keep       bool // stalled threads stay stalled across driver events
 	kills      int
+	nbusy      int // long calls started and not yet released
+	idle       time.Duration // the Transport's IdleConnTimeout
 }
 
 func (t *trSys) settle() {
@@ -56,6 +58,7 @@ type trLong struct {
 	addr    string
 	kills   int // number of kills when it was started
 	budget0 int // dead pooled connections not yet used up when it was started
+	judged  bool
 }
 
 type trStream struct {
@@ -67,6 +70,7 @@ type trStream struct {
 func newTrSys(x *X, prop string, maxConns, maxIdle int) *trSys {
 	t := &trSys{x: x, prop: prop, n: newNet(), w: map[string]*World{}, srv: map[string]*rpc.Server{}, up: map[string]bool{}, deadBudget: map[string]int{}, maxConns: maxConns, maxIdle: maxIdle, nextTag: 1}
 	t.effConns, t.effIdle = maxConns, maxIdle
+	t.idle = trIdle
 	if t.effConns < 1 {
 		t.effConns = rpc.DefaultMaxConnsPerHost
 	}
@@ -81,7 +85,7 @@ func newTrSys(x *X, prop string, maxConns, maxIdle int) *trSys {
 	}
 	vs.Quiesce()
 	so := srvOpts{bufSize: 64}
-	t.tr = &rpc.Transport{MaxConnsPerHost: maxConns, MaxIdleConnsPerHost: maxIdle, KeepAlive: tKeepAlive, IdleConnTimeout: tIdle, Options: so.options(t.n, 64)}
+	t.tr = &rpc.Transport{MaxConnsPerHost: maxConns, MaxIdleConnsPerHost: maxIdle, KeepAlive: tKeepAlive, IdleConnTimeout: trIdle, Options: so.options(t.n, 64)}
 	t.n.onDial = func(addr string) { t.checkLimits("at dial") }
 	return t
 }
@@ -238,6 +242,7 @@ func (t *trSys) longCall(addr string) {
 	c := newUcall(t.tag(), fGate, 30, formCall)
 	l := &trLong{c: c, addr: addr, kills: t.kills, budget0: t.deadBudget[addr]}
 	t.long = append(t.long, l)
+	t.nbusy++
 	vs.GoNamed("longcall", func() {
 		c.err = t.tr.Call(addr, c.method, &c.args, &c.reply)
 		c.ret = true
@@ -254,11 +259,37 @@ func (t *trSys) openStream(addr string) {
 	}
 }
 
+// quiet: nothing is in flight or open on any pooled connection and no server was ever killed
+func (t *trSys) quiet() bool { return t.nbusy == 0 && len(t.streams) == 0 && t.kills == 0 }
+
+// checkQuiet: after a period longer than KeepAlive in which the Transport was not used at all, every
+// connection has been retired; at most MaxIdleConnsPerHost per host may still be open (in the idle
+// queue), the surplus has been closed.  (The C13 idle limit, judged from outside: open connections.)
+func (t *trSys) checkQuiet(wasQuiet bool, what string) {
+	if !wasQuiet || t.prop != "C13" {
+		return
+	}
+	for _, a := range []string{"a", "b"} {
+		if t.n.live[a] > t.effIdle {
+			t.x.Fail("C13/max-idle-exceeded", "%d connections to %q are open after more than %s without any use, MaxIdleConnsPerHost is %d (configured %d, MaxConnsPerHost %d); events so far: %v", t.n.live[a], a, what, t.effIdle, t.maxIdle, t.maxConns, t.log)
+		}
+	}
+}
+
 func (t *trSys) release() {
+	t.nbusy = 0
 	for _, l := range t.long {
 		t.w[l.addr].open(l.c.tag)
 	}
 	vs.Quiesce()
+	for _, l := range t.long {
+		if o := map[string]string{"a": "b", "b": "a"}[l.addr]; l.c.ret && !l.judged && t.w[o].execs[l.c.tag] > 0 {
+			t.x.Fail("C14/wrong-address", "a call for address %q was executed by the server at %q; events: %v", l.addr, o, t.log)
+		}
+		if l.c.ret {
+			l.judged = true
+		}
+	}
 	t.log = append(t.log, "release")
 }
 
@@ -327,10 +358,12 @@ const (
 	evRestartA
 	evCloseStream
 	evRefusedStreamA
+	evManyLongA
+	evManyLongB
 	nTrEvents
 )
 
-var trEvNames = []string{"call(a)", "call(b)", "ping(a)", "go(a)", "long(a)", "stream(a)", "release", "tick", ">keepalive", ">idle", "closeidle", "kill(a)", "restart(a)", "closestream", "refused-stream(a)"}
+var trEvNames = []string{"call(a)", "call(b)", "ping(a)", "go(a)", "long(a)", "stream(a)", "release", "tick", ">keepalive", ">idle", "closeidle", "kill(a)", "restart(a)", "closestream", "refused-stream(a)", "many-long(a)", "many-long(b)"}
 
 func (t *trSys) do(ev int) {
 	switch ev {
@@ -343,7 +376,7 @@ func (t *trSys) do(ev int) {
 	case evGoA:
 		t.call("a", formGo)
 	case evLongA:
-		if t.up["a"] && len(t.long) < 2 {
+		if t.up["a"] && t.nbusy < 2 {
 			t.longCall("a")
 		}
 	case evStreamA:
@@ -355,9 +388,13 @@ func (t *trSys) do(ev int) {
 	case evTick:
 		t.advance(tTick, "tick")
 	case evPastKeepAlive:
+		quiet := t.quiet()
 		t.advance(tKeepAlive+tTick, ">keepalive")
+		t.checkQuiet(quiet, "KeepAlive")
 	case evPastIdle:
-		t.advance(tIdle+tTick, ">idle")
+		quiet := t.quiet()
+		t.advance(t.idle+tTick, ">idle")
+		t.checkQuiet(quiet, "IdleConnTimeout")
 	case evCloseIdle:
 		t.tr.CloseIdleConnections()
 		vs.Quiesce()
@@ -366,6 +403,19 @@ func (t *trSys) do(ev int) {
 		t.kill("a")
 	case evRestartA:
 		t.restart("a")
+	case evManyLongA:
+		// as many concurrent long calls as MaxConnsPerHost allows connections, plus one
+		if t.up["a"] && t.nbusy == 0 {
+			for i := 0; i < t.effConns+1 && i < 12; i++ {
+				t.longCall("a")
+			}
+		}
+	case evManyLongB:
+		if t.up["b"] && t.nbusy == 0 {
+			for i := 0; i < t.effConns+1 && i < 12; i++ {
+				t.longCall("b")
+			}
+		}
 	case evRefusedStreamA:
 		// a stream the server refuses (unknown method): nothing stays open on the connection
 		if t.up["a"] {
@@ -396,11 +446,25 @@ func (t *trSys) shutdown() {
 	vs.Quiesce()
 }
 
+// trIdle is the IdleConnTimeout of the Transports made by newTrSys (a scenario may pick a longer one:
+// several KeepAlive periods then fit into one idle period).
+var trIdle = tIdle
+
 var trLimits = [][2]int{{1, 1}, {2, 1}, {2, 2}, {0, 0}, {1, 3}, {3, 2}}
 
 // sequential driver: every event sequence of length L over the given alphabet
 func trSeqBody(prop string, L int, alphabet []int, limits [][2]int, prefix ...int) func(x *X) {
 	return trSeqBodyK(prop, false, L, alphabet, limits, prefix...)
+}
+
+// trSeqBodyIdle: the IdleConnTimeout is a driver choice as well
+func trSeqBodyIdle(prop string, idles []time.Duration, L int, alphabet []int, limits [][2]int, prefix ...int) func(x *X) {
+	body := trSeqBodyK(prop, false, L, alphabet, limits, prefix...)
+	return func(x *X) {
+		trIdle = idles[x.Choose(len(idles))]
+		defer func() { trIdle = tIdle }()
+		body(x)
+	}
 }
 
 func trSeqBodyK(prop string, keep bool, L int, alphabet []int, limits [][2]int, prefix ...int) func(x *X) {
@@ -420,7 +484,7 @@ func trSeqBodyK(prop string, keep bool, L int, alphabet []int, limits [][2]int, 
 		t.finish(prop == "C15")
 		// liveness (C15): unused connections are retired after KeepAlive and closed after IdleConnTimeout
 		if prop != "C20" { // C20 closes the Transport with whatever is pooled at that moment
-			t.advance(tKeepAlive+tIdle+3*tTick, "idle-out")
+			t.advance(tKeepAlive+t.idle+3*tTick, "idle-out")
 		}
 		for _, a := range []string{"a", "b"} {
 			if prop == "C15" && t.n.live[a] != 0 {
@@ -520,8 +584,125 @@ func init() {
 	c15s := []int{evCallA, evLongA, evStreamA, evCloseStream, evTick, evPastKeepAlive, evCloseIdle}
 	register(&Scenario{Prop: "C15", Name: "c15/after-stream-L3", Quick: []Bound{{0, 0}}, Thorough: []Bound{{1, 0}}, Body: trSeqBody("C15", 3, c15s, trLimits[:2], evStreamA, evCloseStream), MaxSteps: 200000})
 	// two first callers racing for an address: nothing may be left open after Close (C15) / limits hold (C13)
+	manyAb := []int{evCallA, evCallB, evLongA, evRelease, evTick, evPastKeepAlive, evPastIdle, evCloseIdle, evManyLongA, evManyLongB}
+	manyLim := [][2]int{{4, 3}, {6, 5}, {5, 2}, {3, 3}}
+	manyIdles := []time.Duration{tIdle, 20 * time.Second} // the short one expires idle connections within two KeepAlive periods, the long one does not
+	for _, p := range []string{"C13", "C14", "C15", "C20"} {
+		keys := []string{p + "/", "panic/", "livelock/", "hang/"}
+		if p == "C13" {
+			keys = append(keys, "C15/unused-not-reclaimed", "C15/close-leaves-connections") // a connection lost by the pool stays open: over the limit for good
+		}
+		if p == "C20" {
+			keys = append(keys, "C15/close-leaves-connections")
+		}
+		pre := []int{evManyLongA, evRelease, evManyLongB, evRelease, evPastKeepAlive}
+		register(&Scenario{Prop: p, Name: "c" + p[1:] + "/many-idle-L3", Quick: []Bound{{0, 0}}, Thorough: []Bound{{0, 0}}, Body: trSeqBodyIdle(p, manyIdles, 3, manyAb, manyLim, pre...), MaxSteps: 1000000, BudgetQ: 20, BudgetT: 60, OnlyKeys: keys})
+		// the second host holds fewer connections than its idle queue can take
+		pre2 := []int{evManyLongA, evRelease, evCallB, evCallB, evPastKeepAlive}
+		register(&Scenario{Prop: p, Name: "c" + p[1:] + "/many-idle-uneven-L3", Quick: []Bound{{0, 0}}, Thorough: []Bound{{0, 0}}, Body: trSeqBodyIdle(p, manyIdles, 3, manyAb, manyLim, pre2...), MaxSteps: 1000000, BudgetQ: 20, BudgetT: 60, OnlyKeys: keys})
+		if p != "C20" {
+			register(&Scenario{Prop: p, Name: "c" + p[1:] + "/many-idle-L4", Quick: []Bound{}, Thorough: []Bound{{0, 0}}, Body: trSeqBodyIdle(p, manyIdles, 4, manyAb, manyLim, pre...), MaxSteps: 1000000, BudgetQ: 60, BudgetT: 200, OnlyKeys: keys})
+		}
+	}
 	c15r := []int{evCallA, evRefusedStreamA, evTick, evPastKeepAlive, evPastIdle, evCloseIdle}
 	register(&Scenario{Prop: "C15", Name: "c15/after-refused-stream-L3", Quick: []Bound{{0, 0}}, Thorough: []Bound{{1, 0}}, Body: trSeqBody("C15", 3, c15r, trLimits[:2], evRefusedStreamA), MaxSteps: 200000})
 	register(&Scenario{Prop: "C15", Name: "c15/concurrent-first-callers", Quick: []Bound{{1, 0}}, Thorough: []Bound{{2, 0}}, Body: trConcBody("C15", trLimits[:3]), MaxSteps: 200000, BudgetQ: 25})
 	register(&Scenario{Prop: "C15", Name: "c15/seq-L4", Quick: []Bound{{0, 0}}, Thorough: []Bound{{1, 0}}, Body: trSeqBody("C15", 4, c15ab, trLimits[:3]), MaxSteps: 200000})
+}
+
+// many connections per host and limits that are not powers of two: K = MaxConnsPerHost + 1
+// concurrent long calls to one host (and two to a second host) open as many connections as the
+// limit allows; they are released and left unused past KeepAlive (retired to the idle queue, at
+// most MaxIdleConnsPerHost of them), some are taken back into use and retired again, the rest
+// expires after IdleConnTimeout, new calls follow.  At every tick: open connections <=
+// MaxConnsPerHost, idle <= MaxIdleConnsPerHost (C13); every call goes to the server of its address
+// (C14); a connection with a call in flight is never closed by the housekeeping and unused ones are
+// reclaimed (C15); Transport.Close leaves nothing open (C20).  Default schedule (and one deviation
+// in the thorough tier).
+var trManyLimits = [][2]int{{4, 3}, {6, 5}, {8, 7}, {5, 2}, {3, 3}, {9, 4}, {7, 6}}
+
+func trManyBody(prop string) func(x *X) {
+	return func(x *X) {
+		lim := trManyLimits[x.Choose(len(trManyLimits))]
+		reuse := x.Choose(3)  // how many idle connections are taken back into use before the rest expires
+		second := x.Choose(2) // the second host is used as well
+		t := newTrSys(x, prop, lim[0], lim[1])
+		for i := 0; i < lim[0]+1; i++ {
+			t.longCall("a")
+		}
+		if second == 1 {
+			t.longCall("b")
+			t.longCall("b")
+		}
+		t.release()
+		for _, l := range t.long {
+			if !l.c.ret || l.c.err != nil || !eqBytes(l.c.reply, l.c.want()) {
+				x.Fail(prop+"/concurrent-call-failed", "one of %d concurrent calls: returned=%v err=%v", len(t.long), l.c.ret, l.c.err)
+			}
+			if o := map[string]string{"a": "b", "b": "a"}[l.addr]; t.w[o].execs[l.c.tag] > 0 {
+				x.Fail("C14/wrong-address", "a call for %q was executed by the server at %q", l.addr, o)
+			}
+		}
+		t.long = nil
+		t.advance(tKeepAlive+tTick, ">keepalive")
+		// some idle connections are used again: a short call each, one of them long
+		for i := 0; i < reuse; i++ {
+			t.call("a", formCall)
+		}
+		if reuse > 0 {
+			t.longCall("a")
+		}
+		if second == 1 {
+			t.call("b", formCall)
+		}
+		t.advance(tKeepAlive+tTick, ">keepalive")
+		t.call("a", formCall)
+		t.advance(tIdle-tKeepAlive, ">idle(first wave)")
+		if prop == "C15" || prop == "C13" {
+			t.finish(true)
+		} else {
+			t.release()
+		}
+		t.long = nil
+		for i := 0; i < lim[0]; i++ {
+			t.longCall("a")
+		}
+		t.release()
+		for _, l := range t.long {
+			if !l.c.ret || l.c.err != nil {
+				x.Fail(prop+"/concurrent-call-failed", "second wave: returned=%v err=%v; events %v", l.c.ret, l.c.err, t.log)
+			}
+		}
+		t.long = nil
+		t.advance(tKeepAlive+tIdle+3*tTick, "idle-out")
+		for _, a := range []string{"a", "b"} {
+			if (prop == "C15" || prop == "C13") && t.n.live[a] != 0 {
+				x.Fail("C15/unused-not-reclaimed", "%d connections to %q are still open after KeepAlive+IdleConnTimeout+3 ticks without use (limits %v); events: %v", t.n.live[a], a, lim, t.log)
+			}
+		}
+		t.call("a", formCall)
+		t.shutdown()
+		for _, a := range []string{"a", "b"} {
+			if t.n.live[a] != 0 {
+				x.Fail("C15/close-leaves-connections", "%d connections to %q are still open after Transport.Close (limits %v); events: %v", t.n.live[a], a, lim, t.log)
+			}
+		}
+		if prop == "C20" {
+			census(x, t.n, fmt.Sprintf("transport with limits %v after events %v", lim, t.log))
+		}
+		x.Outcome("lim=%v reuse=%d second=%d maxlive=%d/%d dials=%d/%d", lim, reuse, second, t.n.maxLive["a"], t.n.maxLive["b"], t.n.dials["a"], t.n.dials["b"])
+	}
+}
+
+func init() {
+	for _, p := range []string{"C13", "C14", "C15", "C20"} {
+		keys := []string{p + "/", "panic/", "livelock/", "hang/"}
+		if p == "C13" {
+			keys = append(keys, "C15/") // (a connection that is never reclaimed or closed stays open: counted by C13 as well)
+		}
+		if p == "C20" {
+			keys = append(keys, "C15/close-leaves-connections")
+		}
+		register(&Scenario{Prop: p, Name: "c" + p[1:] + "/many-connections", Quick: []Bound{{0, 0}}, Thorough: []Bound{{1, 0}}, Body: trManyBody(p), MaxSteps: 400000, BudgetQ: 15, BudgetT: 200, OnlyKeys: keys, MinHB: 1})
+	}
 }
